@@ -49,35 +49,31 @@ func runScriptFrom(w *world.World, n *world.Node, acts []chainsim.Action) *world
 }
 
 func probe(args []string) {
-	w := world.New(world.Options{NumClients: 4, SC: vcSCOverrides(), Viper: map[string]any{"server_chain.view_change": true}})
-	m := makeDKGs(w, 3, 4, "g1")
-	acts := []chainsim.Action{addNode(w, "m0", false, "c3", 0.5, 2), addNode(w, "m1", false, "c3", 0, 2), addNode(w, "m2", false, "c3", 0, 2), addNode(w, "m3", false, "c3", 0, 2),
-		addNode(w, "s0", true, "c3", 0.25, 2), addNode(w, "s1", true, "c3", 0.5, 2)}
-	n := runScriptFrom(w, w.GenesisNode(), acts)
-	h := vcRound(w, m, "H", 0, true, false, honestTxs(w))
-	for i := 0; i < 24; i++ {
-		ls := world.Leaves(n.State)
-		x := &chainsim.Ctx{W: w, N: &chainsim.SNode{N: n, Leaves: ls}, Now: n.Block.CreationDate + 1, Rnd: n.Block.Round + 1}
-		main := h.Build(x)
-		before := h.Before(x)
-		w.Chain.SetupStateCache()
-		nd := w.Open(n, x.Rnd, x.Now, w.Miners[0], 1000+x.Rnd, "H")
-		for _, bs := range before {
-			bs.Time = x.Now
-			t := w.Txn(*bs)
-			_, err := w.Exec(nd, t)
-			nd.Block.Txns = nd.Txns
-			out := t.TransactionOutput
-			if len(out) > 100 {
-				out = out[:100]
-			}
-			fmt.Printf("    %s by %s: err=%v status=%d %s\n", t.FunctionName, w.ByID[t.ClientID].Name, err, t.Status, out)
+	w := mkWorld()
+	storageActors(w)
+	acts := []chainsim.Action{
+		addBlobberPriced(w, "b1", "c3", 1e7), addBlobberPriced(w, "b2", "c3", 1e7), addBlobberPriced(w, "b3", "c3", 1e7),
+		sLock(w, "c0", "b1", 2e8), sLock(w, "c0", "b2", 2e8), sLock(w, "c0", "b3", 2e8),
+		newAllocation(w, "A", "c1", []string{"b1", "b2", "b3"}, 64<<20, 1e9),
+		commitWrite(w, "A", "c1", "b1", 1<<20),
+		readPoolLock(w, "c1", 1e9),
+		readRedeem(w, "A", "b1", "c1", 1),
+		sUnlock(w, "c0", "b1"),
+		resetOffers(w, "b1"),
+		sUnlock(w, "c0", "b1"),
+		sCall(w, "owner", "kill_blobber", "b1"),
+		sLock(w, "c2", "b1", 2e8),
+		readRedeem(w, "A", "b1", "c1", 3),
+		sCall(w, "owner", "kill_blobber", "b1"),
+	}
+	n := w.GenesisNode()
+	for i := range acts {
+		n = runScriptFrom(w, n, acts[i:i+1])
+		lg := decodeLedger(world.Leaves(n.State), nil)
+		if p := lg.Provs[w.Actors["b1"].ID]; p != nil {
+			fmt.Printf("      b1 node=%v pool=%v killed=%v shut=%v spdead=%v pools=%d offers=%d rewards=%s\n", p.HasNode, p.HasPool, p.Killed, p.ShutDown, p.SPKilled, len(p.Pools), p.Offers, p.rewards())
+		} else {
+			fmt.Println("      b1 gone")
 		}
-		main.Time = x.Now
-		t := w.Txn(*main)
-		_, err := w.Exec(nd, t)
-		w.CloseBlock(nd)
-		fmt.Printf("round %d payFees err=%v status=%d out=%.150s | %s\n", x.Rnd, err, t.Status, t.TransactionOutput, decodeVC(world.Leaves(nd.State)))
-		n = nd
 	}
 }
